@@ -72,9 +72,9 @@ pub fn check(ctx: &Ctx, t: &mut Tape<'_>, r: &mut Report) -> CheckResult {
     if t.chance(40) { partial_on_core(ctx, t, r) } else { wrapper_history(ctx, t, r) }
 }
 
-fn gen_kind_iv<'a>(ctx: &'a Ctx, t: &mut Tape<'_>) -> (StreamKind, &'a Suite, Vec<u8>, Vec<u8>) {
+fn gen_kind_iv<'a>(ctx: &'a Ctx, t: &mut Tape<'_>) -> Option<(StreamKind, &'a Suite, Vec<u8>, Vec<u8>)> {
     let kind = t.pick(&STREAM_KINDS_ALL[..7]);
-    let suite = ctx.pick_suite(t, |s| s.stream(kind).is_some());
+    let suite = ctx.pick_suite(t, |s| s.has_stream(kind))?;
     let bs = suite.info.bs;
     let key = gen_key(t, suite);
     let iv = match kind {
@@ -84,11 +84,14 @@ fn gen_kind_iv<'a>(ctx: &'a Ctx, t: &mut Tape<'_>) -> (StreamKind, &'a Suite, Ve
             gen_iv(t, bs)
         }
     };
-    (kind, suite, key, iv)
+    Some((kind, suite, key, iv))
 }
 
 fn wrapper_history(ctx: &Ctx, t: &mut Tape<'_>, r: &mut Report) -> CheckResult {
-    let (kind, suite, key, iv) = gen_kind_iv(ctx, t);
+    let Some((kind, suite, key, iv)) = gen_kind_iv(ctx, t) else {
+        r.label("config-not-in-this-build");
+        return Ok(());
+    };
     let f = suite.stream(kind).unwrap();
     let bs = suite.info.bs;
     let w = kind.width().unwrap();
@@ -254,7 +257,10 @@ fn wrapper_history(ctx: &Ctx, t: &mut Tape<'_>, r: &mut Report) -> CheckResult {
 }
 
 fn partial_on_core(ctx: &Ctx, t: &mut Tape<'_>, r: &mut Report) -> CheckResult {
-    let (kind, suite, key, iv) = gen_kind_iv(ctx, t);
+    let Some((kind, suite, key, iv)) = gen_kind_iv(ctx, t) else {
+        r.label("config-not-in-this-build");
+        return Ok(());
+    };
     let f = suite.stream(kind).unwrap();
     let bs = suite.info.bs;
     let w = kind.width().unwrap();
